@@ -98,8 +98,11 @@ def expand(text, defines):
     raise Reject('subst-syntax')
 
 
-def parse(lines, mode='record', defines=None, env_note=None):
+def parse(lines, mode='record', defines=None, want_lines=False):
+    """want_lines: also return, per event, the 1-based number of the line that produced it;
+    a rejection then carries the number of the offending line: (kind, lineno)"""
     events = []
+    where = []
     defines = AList() if defines is None else defines
     stack = []            # (type, name, parent_id)
     cur = 0
@@ -125,6 +128,7 @@ def parse(lines, mode='record', defines=None, env_note=None):
                     if not (inner.lower() == t):
                         raise Reject('syntax')
                     events.append(('end', parent, t, nm, cur))
+                    where.append(lineno)
                     cur = parent
                     continue
                 inner = line[1:len(line) - 1]
@@ -139,8 +143,10 @@ def parse(lines, mode='record', defines=None, env_note=None):
                 nm = h[1].lower() if h[1] is not None else None
                 nsect += 1
                 events.append(('start', cur, t, nm))
+                where.append(lineno)
                 if empty:
                     events.append(('end', cur, t, nm, nsect))
+                    where.append(lineno)
                 else:
                     stack.append((t, nm, cur))
                     cur = nsect
@@ -162,11 +168,13 @@ def parse(lines, mode='record', defines=None, env_note=None):
                     raise Reject('syntax')
                 if which == 'import':
                     events.append(('import', expand(arg.strip(), defines)))
+                    where.append(lineno)
                 elif which == 'include':
                     rel = expand(arg.strip(), defines)
                     if mode == 'schemaless':
                         raise Reject('notimpl')
                     events.append(('include', cur, rel))
+                    where.append(lineno)
                 else:
                     if mode == 'schemaless':
                         raise Reject('notimpl')
@@ -179,10 +187,15 @@ def parse(lines, mode='record', defines=None, env_note=None):
             if len(value) > 0:
                 value = expand(value, defines)
             events.append(('kv', cur, key, value, lineno))
+            where.append(lineno)
         if stack:
             raise Reject('syntax')
     except Reject as e:
+        if want_lines:
+            return (e.kind, lineno)
         return (e.kind,)
+    if want_lines:
+        return ('ok', events, [(k, v) for k, v in defines.items()], where)
     return ('ok', events, [(k, v) for k, v in defines.items()])
 
 
